@@ -110,8 +110,7 @@ func advances(cf cfg) []int64 {
 //
 //	X (cross):    everything, 17 operations.
 //	T (throttle): logins from both addresses, the clock steps around the
-//	              1-minute window and the block period; 8 operations.
-//	T1 (throttle, one address): as T with address 0 only; 6 operations.
+//	              1-minute window and the block period, restart; 10 operations.
 //	S (sessions): one login, request/logout with both cookies, the clock steps
 //	              around the day boundary, the TTL and a day, restart; 11 operations.
 func alphabet(pass string, cf cfg) (ops []op) {
@@ -130,10 +129,8 @@ func alphabet(pass string, cf cfg) (ops []op) {
 	case "T":
 		two("bad")
 		two("good")
-		adv(59, 61, cf.Block-1, cf.Block+1)
-	case "T1":
-		ops = append(ops, op{K: "bad", A: 0, C: c}, op{K: "good", A: 0, C: c})
-		adv(59, 61, cf.Block-1, cf.Block+1)
+		adv(1, 59, 61, cf.Block-1, cf.Block+1)
+		ops = append(ops, op{K: "restart", C: c})
 	case "S":
 		ops = append(ops, op{K: "good", A: 0, C: c})
 		two("req")
@@ -169,25 +166,30 @@ type unit struct {
 	J, K  int
 }
 
-// weight estimates the cost of a unit (measured growth of the number of
-// states per level), for dealing units to processes.
+// weight estimates the CPU seconds of a unit from measurements (seconds of one
+// configuration at a reference depth, growth per level), for dealing units to
+// processes.
 func (u unit) weight() float64 {
-	g, n, ops := 5.3, 10.6, 17.0
+	ref, base, growth, ops := 4, 11.4, 7.0, 17.0
 	switch u.Pass {
 	case "T":
-		g, n, ops = 3.6, 16, 8
-	case "T1":
-		g, n, ops = 3.0, 16, 6
+		ref, base, growth, ops = 8, 10, 1.6, 10
 	case "S":
-		g, n, ops = 3.8, 9.2, 11
+		ref, base, growth, ops = 6, 27, 4.5, 11
 	}
-	w := n
-	for i := 1; i < u.Depth; i++ {
-		w *= g
+	w := base
+	for d := ref; d < u.Depth; d++ {
+		w *= growth
 	}
-	pre := ops
-	for i := 1; i < splitLevel(u.Pass); i++ {
+	for d := u.Depth; d < ref; d++ {
+		w /= growth
+	}
+	pre := 0.002
+	for i := 0; i < splitLevel(u.Pass); i++ {
 		pre *= ops
+	}
+	if u.K <= 1 {
+		pre = 0
 	}
 	return w/float64(u.K) + pre
 }
@@ -230,7 +232,6 @@ func plan(quick bool, depth, split map[string]int) (us []unit) {
 	for _, m := range []int{1, 2, 3} {
 		for _, b := range []int64{b2, b15} {
 			add("T", cfg{m, b, t1h})
-			add("T1", cfg{m, b, t1h})
 		}
 	}
 	// Sessions do not read the throttling parameters: every TTL.
@@ -245,9 +246,9 @@ func plan(quick bool, depth, split map[string]int) (us []unit) {
 
 func tierParams(quick bool) (depth, split map[string]int) {
 	if quick {
-		return map[string]int{"T": 5, "T1": 7, "S": 6, "X": 4}, map[string]int{"T": 3, "T1": 2, "S": 6, "X": 2}
+		return map[string]int{"T": 9, "S": 7, "X": 4}, map[string]int{"T": 2, "S": 12, "X": 2}
 	}
-	return map[string]int{"T": 7, "T1": 9, "S": 8, "X": 5}, map[string]int{"T": 4, "T1": 2, "S": 8, "X": 2}
+	return map[string]int{"T": 14, "S": 8, "X": 5}, map[string]int{"T": 4, "S": 48, "X": 4}
 }
 
 // ---- reference model -----------------------------------------------------------
@@ -540,19 +541,33 @@ func (rs *runState) apply(o op, idx int) (res stepResult) {
 	return res
 }
 
-// key dumps the implementation and the model, relative to the clock.  Dropped:
-// the exact `until`/`expire` of entries that are already expired (every test
-// on them is a comparison with a clock that only grows), whole days of the
-// clock (the code only compares day numbers of two absolute times and
-// differences), token bytes (replaced by order of issue).
-func (rs *runState) key(lastBlocked bool) (k string, vkey, vdesc string) {
+// key dumps the implementation and the model, relative to the clock, and
+// checks that the session tables hold only delivered tokens.  Dropped from the
+// key, with the reason:
+//   - token bytes: replaced by the order of issue;
+//   - the exact `until`/`expire` of entries that are already expired: every
+//     test on them is a comparison with a clock that only grows;
+//   - whole days of the clock: the code compares day numbers of two absolute
+//     times and differences, so a shift by whole days changes nothing;
+//   - sessions other than the first nCookies issued: no operation of the
+//     alphabet presents their cookie, so nothing later observes them;
+//   - the time of day, once both cookie slots are used and neither session can
+//     authenticate again: it only matters to the expiry refresh;
+//   - in the throttle pass (throttleOnly): all session state and the time of
+//     day, because that pass has no operation that presents a cookie and the
+//     login path does not read the session tables (the cross pass keeps them).
+func (rs *runState) key(lastBlocked, throttleOnly bool) (k string, vkey, vdesc string) {
 	m := rs.m
 	failed, mem, db, err := home.VerifC12Dump()
 	if err != nil {
 		return "", "dump:failed", err.Error()
 	}
 	var sb strings.Builder
-	fmt.Fprintf(&sb, "%s|tod=%d|F", m.cf, m.now%day)
+	sb.WriteString(m.cf.String())
+	if throttleOnly {
+		sb.WriteString("|throttle-only")
+	}
+	sb.WriteString("|F")
 	nowT := time.Unix(m.now, 0)
 	for _, f := range failed {
 		if f.Until.Before(nowT) {
@@ -563,11 +578,7 @@ func (rs *runState) key(lastBlocked bool) (k string, vkey, vdesc string) {
 	}
 	dumpS := func(tag string, l []home.VerifC12Session) (string, string) {
 		sb.WriteString("|" + tag)
-		type ent struct {
-			idx int
-			s   home.VerifC12Session
-		}
-		ents := make([]ent, 0, len(l))
+		var ents [nCookies][]home.VerifC12Session
 		for _, s := range l {
 			i, ok := rs.tokIdx[s.Token]
 			if !ok {
@@ -577,17 +588,19 @@ func (rs *runState) key(lastBlocked bool) (k string, vkey, vdesc string) {
 				}
 				return vk, fmt.Sprintf("the session table (%s) holds token %s for user %q which no login response delivered", tag, s.Token, s.User)
 			}
-			ents = append(ents, ent{i, s})
+			if i < nCookies {
+				ents[i] = append(ents[i], s)
+			}
 		}
-		for i := 0; i < len(rs.issued); i++ {
-			for _, e := range ents {
-				if e.idx != i {
-					continue
-				}
-				if int64(e.s.Expire) <= m.now {
-					fmt.Fprintf(&sb, " %d:%s:expired", i, e.s.User)
+		if throttleOnly {
+			return "", ""
+		}
+		for i := range ents {
+			for _, e := range ents[i] {
+				if int64(e.Expire) <= m.now {
+					fmt.Fprintf(&sb, " %d:%s:expired", i, e.User)
 				} else {
-					fmt.Fprintf(&sb, " %d:%s:%d", i, e.s.User, int64(e.s.Expire)-m.now)
+					fmt.Fprintf(&sb, " %d:%s:%d", i, e.User, int64(e.Expire)-m.now)
 				}
 			}
 		}
@@ -605,8 +618,15 @@ func (rs *runState) key(lastBlocked bool) (k string, vkey, vdesc string) {
 			fmt.Fprintf(&sb, " %d:%d:%d", a, r.count, r.end-m.now)
 		}
 	}
+	if throttleOnly {
+		return sb.String(), "", ""
+	}
 	sb.WriteString("|S")
+	todMatters := len(m.sess) < nCookies
 	for i, s := range m.sess {
+		if i >= nCookies {
+			break
+		}
 		switch {
 		case s.loggedOut:
 			fmt.Fprintf(&sb, " %d:out", i)
@@ -615,14 +635,24 @@ func (rs *runState) key(lastBlocked bool) (k string, vkey, vdesc string) {
 		case m.now >= s.lastUse+m.cf.TTL:
 			fmt.Fprintf(&sb, " %d:over", i)
 		default:
+			todMatters = true
 			fmt.Fprintf(&sb, " %d:%d:%d", i, s.created+m.cf.TTL-m.now, s.lastUse+m.cf.TTL-m.now)
 		}
+	}
+	if todMatters {
+		fmt.Fprintf(&sb, "|tod=%d", m.now%day)
 	}
 	return sb.String(), "", ""
 }
 
 // exec replays hist on a fresh instance; the oracle is checked at every step.
-func exec(cf cfg, hist []op) (st lib.Step) {
+func exec(pass string, cf cfg, hist []op) (st lib.Step) {
+	throttleOnly := pass == "T"
+	defer func() {
+		if r := recover(); r != nil {
+			st = lib.Step{VKey: "panic:outside-operation", VDesc: fmt.Sprintf("panic while setting up, dumping or closing: %v\n%s\ncase: %s", r, debug.Stack(), jsonStr(hist))}
+		}
+	}()
 	execSeq++
 	dir := filepath.Join(tmpRoot, fmt.Sprintf("c12-%d", execSeq))
 	if err := os.MkdirAll(dir, 0o755); err != nil {
@@ -672,7 +702,7 @@ func exec(cf cfg, hist []op) (st lib.Step) {
 		lastBlocked = strings.HasSuffix(res.outcome, ":429")
 		// The table check runs after every step so that a replayed history
 		// fails at the step that breaks it.
-		if _, vk, vd := rs.key(lastBlocked); vk != "" {
+		if _, vk, vd := rs.key(lastBlocked, throttleOnly); vk != "" {
 			return fail(vk, vd, i)
 		}
 		if i == len(hist)-1 {
@@ -680,7 +710,7 @@ func exec(cf cfg, hist []op) (st lib.Step) {
 			st.NonTrivial = res.nontrivial
 		}
 	}
-	k, vk, vd := rs.key(lastBlocked)
+	k, vk, vd := rs.key(lastBlocked, throttleOnly)
 	if vk != "" {
 		return fail(vk, vd, len(hist)-1)
 	}
@@ -730,6 +760,8 @@ func run(c *lib.Ctx) {
 		shardI, shardN = 0, 1
 	}
 	mine := deal(units, shardN)[shardI]
+	// Cheapest first: what a unit leaves of its share goes to the later ones.
+	sort.SliceStable(mine, func(a, b int) bool { return mine[a].weight() < mine[b].weight() })
 	// lib.BFS must not apply its own level-1 split inside a unit.
 	c.ShardI, c.ShardN = 0, 1
 	for i, u := range mine {
@@ -745,7 +777,7 @@ func run(c *lib.Ctx) {
 		cpu0 := cpuSeconds()
 		b := &lib.BFS[op]{C: c, Ops: alphabet(u.Pass, u.Cf), MaxDepth: u.Depth, Workers: 1, Confirm: true,
 			Exec: func(h []op) lib.Step {
-				st := exec(u.Cf, h)
+				st := exec(u.Pass, u.Cf, h)
 				if u.K > 1 && len(h) == splitLevel(u.Pass) && st.VKey == "" && st.Key != "" && lib.Hash(st.Key)%uint64(u.K) != uint64(u.J) {
 					// Another part extends this state.
 					return lib.Step{Outcome: st.Outcome}
@@ -797,7 +829,7 @@ func replay(c *lib.Ctx, raw json.RawMessage) string {
 	if err != nil {
 		return err.Error()
 	}
-	st := exec(cf, hist)
+	st := exec("X", cf, hist)
 	if st.VKey != "" {
 		return st.VKey + ": " + st.VDesc
 	}
@@ -828,7 +860,7 @@ func main() {
 				"cpu_seconds_max_process":       float64(m.Maxes["cpu_ms_max_shard"]) / 1000,
 				"bfs_runs":                      m.Counters["bfs_runs"],
 				"skipped_boundary_landings":     m.Counters["skipped_boundary_landings"],
-				"rule": "BFS over timed histories (failed/successful login from 2 peer addresses, request/logout with the 1st/2nd issued cookie, 8 clock steps straddling the 1-minute window, the block period, the session TTL and a day, restart = Close + InitAuth with a fresh rate limiter on the same sessions.db) executed on the real handleLogin, handleLogout, optionalAuth, InitAuth and authRateLimiter under the virtual clock, for every configuration listed in note_configurations; every (shard, configuration) pair is one BFS, sharded by the first operation. A state is (time of day, failed-attempt table, session map, sessions.db content, model). Oracle after every step: status 429+Retry-After/403/200+cookie against the per-address (count, windowEnd) automaton; authentication of each cookie against two-sided session bounds (must before created+TTL, must not after logout / lastUse+TTL / once seen expired, also across restart); no session token in the tables that no response delivered. A clock step that would land exactly on a model boundary is not taken (skipped_boundary_landings). non-trivial = blocked login, 2nd+ or blocking failure, success that clears a record, request/logout with an issued cookie, restart with sessions",
+				"rule": "BFS over timed histories executed on the real handleLogin (behind the method/content-type wrapper), handleLogout (behind optionalAuth), an optionalAuth-wrapped probe handler, InitAuth and authRateLimiter under the virtual clock; restart = Close + InitAuth with a fresh rate limiter on the same sessions.db. Three passes (note_plan): T throttle-only alphabet on every (maxAttempts, blockDur); S session-only alphabet on every TTL; X the full alphabet on the listed configurations. Every BFS is cut into parts by the hash of the states reached at history length 2 (3 in pass S); parts are dealt to 16 processes. A state is (failed-attempt table, in-memory session table, sessions.db content, time of day, model), see the key function for what is dropped and why. Oracle after every step: status 429+Retry-After / 403 / 200+fresh cookie against the per-address (count, windowEnd) automaton; authentication of each cookie against two-sided session bounds (must before created+TTL, must not after logout / at or after lastUse+TTL / once seen expired, also across restart); no token in the session tables that no response delivered (a blocked login must not create a session). A clock step that would land exactly on a model boundary is not taken (skipped_boundary_landings). non-trivial = blocked login, 2nd+ or blocking failure, success that clears a record, request/logout with an issued cookie, restart with sessions",
 			}
 		},
 		Assumptions: []string{
